@@ -477,9 +477,9 @@ func (e *Enc) closureFacts(c *Comp, sym, alloc string) []string {
 	vs := valueSortOf(c)
 	switch vs {
 	case "Ref":
-		return []string{fmt.Sprintf("(forall (%s) (! (isalloc %s %s) :pattern (%s)))", strings.Join(idx, " "), alloc, cell, cell)}
+		return []string{fmt.Sprintf("(forall (%s) (! %s :pattern (%s)))", strings.Join(idx, " "), isAlloc(alloc, cell), cell)}
 	case "Slice":
-		return []string{fmt.Sprintf("(forall (%s) (! (and (isalloc %s (s_arr %s)) (>= (s_len %s) 0) (>= (s_off %s) 0) (>= (s_cap %s) (s_len %s))) :pattern (%s)))",
+		return []string{fmt.Sprintf("(forall (%s) (! (and %s (>= (s_len %s) 0) (>= (s_off %s) 0) (>= (s_cap %s) (s_len %s))) :pattern (%s)))",
 			strings.Join(idx, " "), alloc, cell, cell, cell, cell, cell, cell)}
 	}
 	return nil
@@ -497,7 +497,7 @@ func (e *Enc) specLoadFact(term, sort string, st *St) {
 	case "Ref":
 		e.assume(isAlloc(a, term))
 	case "Slice":
-		e.assume(fmt.Sprintf("(and (isalloc %s (s_arr %s)) (>= (s_len %s) 0) (>= (s_off %s) 0) (>= (s_cap %s) (s_len %s)) (=> (= (s_arr %s) nil) (= (s_cap %s) 0)))", a, term, term, term, term, term, term, term))
+		e.assume(fmt.Sprintf("(and %s (>= (s_len %s) 0) (>= (s_off %s) 0) (>= (s_cap %s) (s_len %s)) (=> (= (s_arr %s) nil) (= (s_cap %s) 0)))", isAlloc(a, "(s_arr "+term+")"), term, term, term, term, term, term))
 	}
 }
 
@@ -644,12 +644,33 @@ func (e *Enc) cellComp(t types.Type) *Comp {
 // Allocation is a counter: object o is allocated in a state iff its (fixed) allocation time
 // atime(o) is below the state's counter. "Allocation only grows" is then a scalar inequality
 // instead of a quantified axiom per havoc (those chains dominated instantiation counts).
+// allocCounter selects the counter representation (contract directive alloc-counter); the
+// default is the array representation, which keeps integer arithmetic out of queries that are
+// hard for other reasons (the score sums).
+var allocCounter = false
+
 func (e *Enc) allocComp() *Comp {
-	e.hdrOnce("atime", "(declare-fun atime (Ref) Int)\n(declare-fun isalloc (Int Ref) Bool)\n(assert (forall ((a Int) (o Ref)) (! (= (isalloc a o) (< (atime o) a)) :pattern ((isalloc a o)))))\n(assert (< (atime nil) 0))")
-	return e.comp("alloc", "Int", "alloc", "alloc")
+	if allocCounter {
+		e.hdrOnce("atime", "(declare-fun atime (Ref) Int)\n(declare-fun isalloc (Int Ref) Bool)\n(assert (forall ((a Int) (o Ref)) (! (= (isalloc a o) (< (atime o) a)) :pattern ((isalloc a o)))))\n(assert (< (atime nil) 0))")
+		return e.comp("alloc", "Int", "alloc", "alloc")
+	}
+	return e.comp("alloc", "(Array Ref Bool)", "alloc", "alloc")
 }
 
-func isAlloc(a, o string) string { return "(isalloc " + a + " " + o + ")" }
+func isAlloc(a, o string) string {
+	if allocCounter {
+		return "(isalloc " + a + " " + o + ")"
+	}
+	return "(select " + a + " " + o + ")"
+}
+
+// allocNew: r is a fresh object in state a; returns the new allocation state term and the fact.
+func allocNew(a, r string) (fact, next string) {
+	if allocCounter {
+		return "(= (atime " + r + ") " + a + ")", "(+ " + a + " 1)"
+	}
+	return "(not (select " + a + " " + r + "))", "(store " + a + " " + r + " true)"
+}
 func (e *Enc) clockComp() *Comp { return e.comp("clock", "Int", "clock", "G:clock") }
 
 func (e *Enc) globalComp(g *ssa.Global) *Comp {
